@@ -144,7 +144,9 @@ AtomProps(atom, m) ==
      [] atom = "c.rewards" -> {"C11"}
      [] atom \in {"c.pend", "b.len", "b.id", "b.status", "b.due"} -> {"C06"}
      [] atom = "b.expected" -> {"C01", "C04", "C06"}
-     [] atom = "b.received" -> {"C02", "C06"}
+     \* (C05: the payouts of a batch are shares of what WAS received for it - a record that understates the delivery
+     \*  underpays every requester)
+     [] atom = "b.received" -> {"C02", "C06", "C05"}
      [] atom \in {"b.total", "b.cnt", "led.wdl"} -> {"C05"}
      \* (the per-user view of the open requests is what the UnstakeRequests query reports: C17)
      [] atom = "c.reqs" -> {"C05", "C17"}
@@ -171,13 +173,15 @@ AtomProps(atom, m) ==
      [] atom = "msg.send.nat" -> {"C02"} \cup R(m = "withdraw", "C05") \cup R(m \in {"receive_rewards", "fee_withdraw"}, "C11")
      [] atom = "msg.send.lst" -> {"C03"}
      [] atom = "msg.ibc.nat" -> {"C01", "C07"} \cup R(m = "receive_rewards", "C11")
-     [] atom = "msg.ibc.lst" -> {"C03", "C07"}
+     [] atom = "msg.ibc.lst" -> {"C03", "C07"} \cup R(m = "liquid_stake", "C04")
      [] atom = "msg.oracle" -> {"C15"}
      [] atom = "msg.unknown" -> {"C07"}
      [] atom \in {"wire.canon", "wire.url"} -> {"C19"})
   \cup R(m \in {"migrate_roundtrip", "migrate_from_0_4_20"}, "C18")
   \* (a wrong LST denom after an upgrade is a C19 matter: it is the denom of every later mint and burn)
   \cup R(m = "migrate_from_0_4_20" /\ atom = "c.cfg", "C19")
+  \* (who holds which role - staker, reward collector, monitors, admin - changes only through the authorised messages: C08)
+  \cup R(m = "migrate_from_0_4_20" /\ atom \in {"c.cfg.hooks", "c.cfg.monitors", "c.admin"}, "C08")
   \* halting / resuming may change nothing but the flag (and the three totals)
   \cup R(m \in {"circuit_breaker", "resume_contract"} /\ atom # "msg.oracle", "C10")
 
@@ -227,15 +231,15 @@ SuccessProps(w, call) ==
   \cup R(w.c.cfg.oracle = None /\ m \in {"liquid_stake", "submit_batch", "withdraw", "receive_rewards", "resume_contract"}, "C15")
 
 InvProps(w) ==
-  R(~Inv_C01(w), "C01") \cup R(~Inv_C01b(w), "C01") \cup R(~Inv_C02(w), "C02") \cup R(~Inv_C03(w), "C03")
+  R(~Inv_C01(w), "C01") \cup R(~Inv_C01b(w), "C01") \cup R(~Inv_C01c(w), "C01") \cup R(~Inv_C01c(w), "C07") \cup R(~Inv_C02(w), "C02") \cup R(~Inv_C03(w), "C03")
   \cup R(~Inv_C05(w), "C05") \cup R(~Inv_C06(w), "C06") \cup R(~Inv_C07(w), "C07") \cup R(~Inv_C11(w), "C11")
   \cup R(~NonNeg(w), "C02")
 InvNames(w) ==
-  R(~Inv_C01(w), "Inv_C01") \cup R(~Inv_C01b(w), "Inv_C01b") \cup R(~Inv_C02(w), "Inv_C02") \cup R(~Inv_C03(w), "Inv_C03")
+  R(~Inv_C01(w), "Inv_C01") \cup R(~Inv_C01b(w), "Inv_C01b") \cup R(~Inv_C01c(w), "Inv_C01c") \cup R(~Inv_C02(w), "Inv_C02") \cup R(~Inv_C03(w), "Inv_C03")
   \cup R(~Inv_C05(w), "Inv_C05") \cup R(~Inv_C06(w), "Inv_C06") \cup R(~Inv_C07(w), "Inv_C07") \cup R(~Inv_C11(w), "Inv_C11")
   \cup R(~NonNeg(w), "NonNeg")
 
-PropOfInv(n) == CASE n \in {"Inv_C01", "Inv_C01b"} -> {"C01"} [] n \in {"Inv_C02", "NonNeg"} -> {"C02"} [] n = "Inv_C03" -> {"C03"}
+PropOfInv(n) == CASE n \in {"Inv_C01", "Inv_C01b"} -> {"C01"} [] n = "Inv_C01c" -> {"C01", "C07"} [] n \in {"Inv_C02", "NonNeg"} -> {"C02"} [] n = "Inv_C03" -> {"C03"}
                   [] n = "Inv_C05" -> {"C05"} [] n = "Inv_C06" -> {"C06"} [] n = "Inv_C07" -> {"C07"} [] n = "Inv_C11" -> {"C11"}
 
 \* ------------------------------------------------------------------ verdict of one line
